@@ -63,18 +63,16 @@ fn decode(mut idx: usize, radices: &[usize]) -> Vec<usize> {
 /// Pairs (a in left, b in right) with (a.0 ^ b.0 ^ tweak) having its low `bits` bits zero.
 fn join_low(left: &[(u64, u32)], right: &[(u64, u32)], tweak: u64, bits: u32, cap: usize) -> Vec<(u64, u32, u32)> {
     let mask = if bits >= 64 { !0u64 } else { (1u64 << bits) - 1 };
-    let mut r: Vec<(u64, u32)> = right.iter().map(|&(v, i)| (v & mask, i)).collect();
+    // (masked value, position in `right`): the entries' own ids need not be positions
+    let mut r: Vec<(u64, u32)> = right.iter().enumerate().map(|(pos, &(v, _))| (v & mask, pos as u32)).collect();
     r.sort_unstable();
-    let mut full: std::collections::HashMap<u32, u64> = std::collections::HashMap::new();
-    let _ = &mut full;
-    let rv: Vec<u64> = right.iter().map(|e| e.0).collect();
     let mut out = Vec::new();
     for &(va, ia) in left {
         let key = (va ^ tweak) & mask;
         let mut lo = r.partition_point(|e| e.0 < key);
         while lo < r.len() && r[lo].0 == key {
-            let ib = r[lo].1;
-            out.push((va ^ rv[ib as usize] ^ tweak, ia, ib));
+            let (vb, ib) = right[r[lo].1 as usize];
+            out.push((va ^ vb ^ tweak, ia, ib));
             if out.len() >= cap {
                 return out;
             }
@@ -84,17 +82,54 @@ fn join_low(left: &[(u64, u32)], right: &[(u64, u32)], tweak: u64, bits: u32, ca
     out
 }
 
+/// Like `enumerate`, but only selections with at most `max_weight` groups on a non-zero option
+/// index (option 0 is "nothing here"). The id of an entry is still its mixed-radix code.
+fn enumerate_light(groups: &[Group], max_weight: usize) -> Block {
+    let radices: Vec<usize> = groups.iter().map(|g| g.options.len()).collect();
+    let mut place = vec![1usize; groups.len()];
+    for i in 1..groups.len() {
+        place[i] = place[i - 1] * radices[i - 1];
+    }
+    assert!(place.last().copied().unwrap_or(1).saturating_mul(*radices.last().unwrap_or(&1)) <= u32::MAX as usize);
+    let mut entries = Vec::new();
+    fn rec(groups: &[Group], place: &[usize], i: usize, left: usize, value: u64, code: usize, out: &mut Vec<(u64, u32)>) {
+        if i == groups.len() {
+            out.push((value, code as u32));
+            return;
+        }
+        rec(groups, place, i + 1, left, value ^ groups[i].options[0], code, out);
+        if left > 0 {
+            for j in 1..groups[i].options.len() {
+                rec(groups, place, i + 1, left - 1, value ^ groups[i].options[j], code + j * place[i], out);
+            }
+        }
+    }
+    rec(groups, &place, 0, max_weight, 0, 0, &mut entries);
+    Block { entries, radices }
+}
+
 /// Selections (one option index per group) whose contributions XOR to `target`.
 /// `groups.len()` must be divisible into four blocks; list sizes should be around 2^21..2^24.
 pub fn four_list(groups: &[Group], target: u64, max_solutions: usize) -> Vec<Vec<usize>> {
+    four_list_weighted(groups, target, max_solutions, usize::MAX)
+}
+
+/// `four_list` over selections that take a non-zero option in at most `max_weight` groups of each
+/// of the four blocks (usize::MAX: no restriction).
+pub fn four_list_weighted(groups: &[Group], target: u64, max_solutions: usize, max_weight: usize) -> Vec<Vec<usize>> {
     let n = groups.len();
     let q = n / 4;
     let bounds = [0, q, 2 * q, 3 * q, n];
-    let blocks: Vec<Block> = (0..4).map(|b| enumerate(&groups[bounds[b]..bounds[b + 1]])).collect();
-    for b in &blocks {
-        // each right-hand list is indexed by position, so its indices must be 0..len in order
-        debug_assert!(b.entries.iter().enumerate().all(|(i, e)| e.1 as usize == i));
-    }
+    let blocks: Vec<Block> = (0..4)
+        .map(|b| {
+            let g = &groups[bounds[b]..bounds[b + 1]];
+            if max_weight == usize::MAX {
+                enumerate(g)
+            } else {
+                enumerate_light(g, max_weight)
+            }
+        })
+        .collect();
     let size = blocks.iter().map(|b| b.entries.len()).min().unwrap_or(1).max(2);
     let bits = (usize::BITS - 1 - size.leading_zeros()).min(40);
     let cap = size.saturating_mul(6).max(1 << 20);
@@ -262,6 +297,65 @@ pub fn boards_with_hash(m: &KeyModel, target: u64, max: usize) -> Vec<RawState> 
         }
         if build(&st).is_some() {
             out.push(st);
+            if out.len() >= max {
+                break;
+            }
+        }
+    }
+    out
+}
+
+/// Pairs of accepted boards with the same piece kinds on the same squares, the same side to move,
+/// rights and en-passant state, DIFFERENT colours on some of the squares, and - according to the
+/// key model - the same hash. Per free square the choice is "same on both boards (empty)" or one
+/// of the kinds with the colour swapped between the boards, contributing key[white] ^ key[black];
+/// at most six swapped squares per block of twelve keep each side within sixteen men.
+pub fn colour_collision_pairs(m: &KeyModel, max: usize) -> Vec<(RawState, RawState)> {
+    let (base, _) = frame();
+    let forbidden = [sq(1, 2), sq(2, 1), sq(6, 5), sq(5, 6)];
+    let free: Vec<Sq> = (0..64u8).filter(|&s| base.board[s as usize].is_none() && !forbidden.contains(&s)).collect();
+    if free.len() < 48 {
+        return Vec::new();
+    }
+    let free = &free[free.len() - 48..];
+    let mut groups = Vec::new();
+    let mut dec: Vec<Vec<Option<Kind>>> = Vec::new();
+    for &s in free {
+        let mut options = vec![0u64];
+        let mut d = vec![None];
+        for kind in KINDS5 {
+            if kind == Kind::P && (rank_of(s) == 0 || rank_of(s) == 7) {
+                continue;
+            }
+            let (Some(kw), Some(kb)) = (key_of(m, Side::W, kind, s), key_of(m, Side::B, kind, s)) else { return Vec::new() };
+            options.push(kw ^ kb);
+            d.push(Some(kind));
+        }
+        groups.push(Group { options });
+        dec.push(d);
+    }
+    let sols = four_list_weighted(&groups, 0, 4000, 6);
+    if std::env::var("VCHECK_DEBUG_COLLIDE").is_ok() {
+        eprintln!("colour collision: {} groups, {} raw solutions", groups.len(), sols.len());
+    }
+    let mut out = Vec::new();
+    for sel in sols {
+        if sel.iter().all(|&j| j == 0) {
+            continue;
+        }
+        let (mut a, mut b) = (base.clone(), base.clone());
+        // alternate colours, pawns and pieces separately, so that both boards stay within limits
+        let (mut np, mut no) = (0usize, 0usize);
+        for (gi, &s) in free.iter().enumerate() {
+            let Some(kind) = dec[gi][sel[gi]] else { continue };
+            let n = if kind == Kind::P { &mut np } else { &mut no };
+            let side = if *n % 2 == 0 { Side::W } else { Side::B };
+            *n += 1;
+            a.board[s as usize] = Some((kind, side));
+            b.board[s as usize] = Some((kind, side.other()));
+        }
+        if build(&a).is_some() && build(&b).is_some() {
+            out.push((a, b));
             if out.len() >= max {
                 break;
             }
